@@ -796,6 +796,19 @@ func (g *Gen) forStmt() Stmt {
 		} else {
 			f.Post = &IncDec{Name: i, Op: "++"}
 		}
+		if _, isDecl := f.Init.(*VarDecl); isDecl && g.chance(1, 8) {
+			// no init clause: `for ; cond; post`; the counter is declared before the loop
+			pre = append(pre, &VarDecl{Kind: ":=", Name: i, X: &IntLit{V: 0}})
+			g.sc.parent.vars = append(g.sc.parent.vars, &gvar{name: i, typ: tInt, ro: true, level: g.level})
+			f.Init = nil
+			g.feat("for-no-init")
+		}
+		if g.chance(1, 8) {
+			// no condition: `for init; ; ; post` (the form the parser accepts); the body leaves with break
+			f.Body = append([]Stmt{&ExprStmt{X: &IfExpr{Cond: &Binary{Op: ">=", L: &Ident{Name: i}, R: f.Cond.(*Binary).R}, Then: []Stmt{&Break{}}}}}, f.Body...)
+			f.Cond = nil
+			g.feat("for-no-condition")
+		}
 		if _, isDecl := f.Init.(*VarDecl); isDecl {
 			g.declare(&gvar{name: i, typ: tInt, ro: true})
 		}
